@@ -125,6 +125,13 @@ func walk(der []byte) (s skeleton, why string) {
 		if !ok || vk[0].tag != 0x02 {
 			return s, "version wrapper does not start with an INTEGER"
 		}
+		if vk[0].end != first[0].end {
+			// e.g. a0 7f 02 01 02: the parser (like encoding/asn1) reads the INTEGER and continues right
+			// after it, ignoring the length the EXPLICIT wrapper declares; by the DER rules the following
+			// fields are somewhere else. Such an input has no agreed skeleton: not judged (parser
+			// strictness is the subject of C19/C20).
+			return s, "EXPLICIT version wrapper whose declared length differs from its INTEGER (non-DER input accepted by the parser)"
+		}
 		c := der[vk[0].body:vk[0].end]
 		if len(c) == 0 || len(c) > 8 {
 			s.versionOK = false
